@@ -8,7 +8,7 @@ to no node of the tree; the outcome must be the same for the variants of the
 document with all references moved before / after their labels.  A wrapper on
 Context.label/ref keeps a shadow table of pending references and asserts after
 every label() that back-patching of that label is complete."""
-import copy, traceback
+import copy, re, traceback
 from .. import common
 from ..instrument import wrap
 from ..gen import docs
@@ -25,7 +25,7 @@ ASSUMPTIONS = ['labelled objects are aligned with parsed nodes by kind and docum
                'NF-10: one label per object, label names over [a-z0-9:-]',
                'a label in the first row of an eqnarray may attach to the eqnarray node itself (same number)']
 DECIDING_HOOKS = ['Context.label', 'Context.ref']
-DECIDING_COUNTERS = {'references_checked': 100}
+DECIDING_COUNTERS = {'unnumbered_item_labels': 10, 'references_checked': 100}
 
 
 def budget(tier):
@@ -119,7 +119,7 @@ def cases(seed, tier, shard, nshards):
     for i in common.sharded(budget(tier)['n'], shard, nshards):
         r = common.rng_for(seed, PROP, i)
         d = docs.gen(r, labels=True, refs=True, eqnarray=True, verbatim=False, boxes=r.random() < 0.3, footnotes=r.random() < 0.5, fonts=r.random() < 0.5,
-                     tables=r.random() < 0.3, depth=r.choice([2, 3]), maxsec=r.choice([4, 8]), blocks=(1, 4))
+                     tables=r.random() < 0.3, depth=r.choice([2, 3]), maxsec=r.choice([4, 8]), blocks=(1, 4), term_labels=r.choice([0, 0.5]))
         for name, v in variants(d):
             exp, m = CM.numbers(v, 2)
             yield {'variant': name, 'src': docs.latex(v), 'objects': [[k, n, l] for k, n, l in exp], 'refs': refs_of(v), 'labels': v['labels']}
@@ -208,6 +208,14 @@ def run(case, st):
         else:
             st.feature('labelled-kind', k)
     ids = [ctx.labels[l].id for l in target if l in ctx.labels]
+    # labels written in items with an explicit term (no numbered object of their own): still distinct identifiers, and no numbered object may lose its own
+    for xl in re.findall(r'\\label\{(xl:\d+)\}', src):
+        st.counters['unnumbered_item_labels'] += 1
+        got = ctx.labels.get(xl)
+        if got is None:
+            bad.append(('label-not-registered', 'label %s (in an item with an explicit term) is not registered' % xl))
+        else:
+            ids.append(got.id)
     if len(set(ids)) != len(ids):
         bad.append(('identifiers-not-distinct', 'distinct labels share an identifier: %r' % ids))
     # references
